@@ -65,6 +65,8 @@ pub enum Op {
     Cancel { op: usize },
     /// no-op notifications a real editor sends
     Save { path: String },
+    /// textDocument/didChange with an empty contentChanges array (legal; changes nothing)
+    EmptyChange { path: String },
     Close { path: String },
     DiskWrite { path: String, text: String },
     DiskRemove { path: String },
@@ -90,6 +92,7 @@ impl Op {
             },
             Op::Cancel { .. } => "Cancel",
             Op::Save { .. } => "Save",
+            Op::EmptyChange { .. } => "EmptyChange",
             Op::Close { .. } => "Close",
             Op::DiskWrite { .. } => "DiskWrite",
             Op::DiskRemove { .. } => "DiskRemove",
@@ -142,6 +145,7 @@ impl Scenario {
                 | Op::Change { path, .. }
                 | Op::Request { path, .. }
                 | Op::Save { path }
+                | Op::EmptyChange { path }
                 | Op::Close { path }
                 | Op::DiskWrite { path, .. }
                 | Op::DiskRemove { path }
